@@ -72,6 +72,7 @@ type Contract struct {
 	File      string
 	Line      int
 	atUsed    map[string]bool
+	MustAt    map[string]bool // anchors that must exist even in family members (written at! `...`)
 }
 
 func (c *Contract) hasProp(id string) bool {
@@ -329,7 +330,7 @@ func (cs *ContractSet) loadFile(path, pkgPath string) error {
 					return err
 				}
 				cur.Ghosts = append(cur.Ghosts, AtClause{Kind: "ghost", Name: strings.TrimSpace(n), Expr: x})
-			case "at":
+			case "at", "at!":
 				a := strings.Index(rest, "`")
 				// closing backquote: the last backquote followed by optional #k and a keyword
 				b := -1
@@ -350,6 +351,12 @@ func (cs *ContractSet) loadFile(path, pkgPath string) error {
 					num, t2, _ := strings.Cut(tail, " ")
 					text += num
 					tail = strings.TrimSpace(t2)
+				}
+				if word == "at!" {
+					if cur.MustAt == nil {
+						cur.MustAt = map[string]bool{}
+					}
+					cur.MustAt[text] = true
 				}
 				kw, body, _ := strings.Cut(tail, " ")
 				switch kw {
